@@ -400,7 +400,7 @@ theorem C09_core_property (T : List EqualsRow) (n : Nat) (k : Kind) (p q : Bool)
 /-- …and for a transitive activity its actor, target, result, origin, instrument (rows of
 IntransitiveActivity.Equals) and its object (row of Activity.Equals). -/
 theorem C09_activity_property (T : List EqualsRow) (n : Nat) (p q : Bool) (o w : Fields)
-    (hw : Flatten.typeIn activityTypesGo (Flatten.strOf w "Type") = true)
+    (hw : isActivityDispatch (Flatten.strOf w "Type") = true)
     (row : String × String × String)
     (hrow : row ∈ rowsOf T "IntransitiveActivity" ∨ row ∈ rowsOf T "Activity")
     (hne : rowHolds (eqF T n) o w row ≠ some true) :
